@@ -6,15 +6,14 @@ use crate::run::*;
 use crate::value::*;
 use serde_json::json;
 
-const HOUR: u64 = 3_600_000;
-const TOL: u64 = 600_000;
+use crate::vtime::{HOUR, TOL};
 
 pub fn prop() -> Prop {
   Prop {
     id: "C08",
     rule: "case = (1..3 independent sources subscribed at t=0, each with its own probe: interval(p), interval_at(now+{-1,0,1,2,3}h, {1,2}h), timer(v,d), timer_at(v, now+{-1,1,2}h), from_future / from_future_result over a scripted future (k self-waking Pending polls, optional wait on the clock, value or error), from_stream / from_stream_result over a scripted stream (items, Pending, waits on the clock, error at position i, end; up to 40 ready items); p,d in {1,2,3,7} ticks; clock script of <= 10 steps: fire the next timer, jump by 1..20 ticks or hours, run the executor; executor prompt (FIFO after every firing), late (runs only at script steps) or any-ready-task-next). \
            Oracle per source: interval values are 0,1,2,... consecutive, t0 >= sub+p (interval_at: >= the instant - tolerance), t(k+1) >= t(k)+p, and with the prompt executor t(k) == sub+(k+1)p exactly (interval_at: first tick at the instant, later ones one period apart); timer: exactly [item, complete], not before due, exactly at due when prompt; futures / streams: delivered == scripted values (or error) then the terminal, nothing after, each item not before the clock wait before it, the stream is never polled after it ended. Non-trivial: a clock jump over >= 2 periods, or a Pending before a Ready, or >= 2 sources. Distinct by hash(case).",
-    assumptions: &["tick = 1 ms virtual; _at instants are hour-scale offsets of the real Instant::now(), compared with a 10 minute tolerance"],
+    assumptions: &["tick = 1 ns virtual; _at instants are hour-scale offsets of the real Instant::now(), compared with a 10 minute tolerance"],
     parts: vec![Part { name: "sources", run: run_case, tape_len: 128, quick_cases: 600_000, thorough_cases: 12_000_000, exhaustive_depth: None, exhaustive_budget: 0, exh_quick: false }],
   }
 }
@@ -92,7 +91,7 @@ fn gen_case(c: &mut dyn Choices) -> Case {
   Case { srcs, script, mode, threads: c.pick(4) == 0 }
 }
 
-fn check_src(case: &Case, idx: usize, src: &TSrc, recs: &[Rec], stats: (usize, usize), req: &[u64]) -> Result<(), (String, String)> {
+fn check_src(case: &Case, idx: usize, src: &TSrc, recs: &[Rec], stats: (usize, usize), req: &[u64], step_times: &[u64]) -> Result<(), (String, String)> {
   let prompt = case.mode == SchedMode::Fifo;
   let shown = || recs.iter().map(|r| format!("{}@t={}", ev_short(&r.ev), r.vt)).collect::<Vec<_>>().join(" ");
   // grammar
@@ -137,10 +136,22 @@ fn check_src(case: &Case, idx: usize, src: &TSrc, recs: &[Rec], stats: (usize, u
         }
         prev = Some(r.vt);
       }
-      // with a prompt executor no due tick may be missing at the end
-      if prompt {
-        let end = recs.last().map(|r| r.vt).unwrap_or(0);
-        let _ = end;
+      // late executor (single FIFO pool that runs only at `run` steps): a tick is
+      // delivered at the first executor run at or after its due time; the next one
+      // is due one period after that delivery
+      if case.mode == SchedMode::Lazy && tol == 0 {
+        let mut due = first_exact;
+        let mut exp: Vec<u64> = vec![];
+        for r in run_times(case, step_times) {
+          if due <= r {
+            exp.push(r);
+            due = r + period;
+          }
+        }
+        let got: Vec<u64> = recs.iter().map(|r| r.vt).collect();
+        if got != exp {
+          return Err((format!("late-run:{}", name(src)), format!("source #{idx}: executor ran at t={:?}; ticks expected at t={exp:?} (first due one period after subscription, each next one period after the previous delivery) but came at t={got:?}", run_times(case, step_times))));
+        }
       }
       Ok(())
     }
@@ -230,6 +241,18 @@ fn check_async(idx: usize, src: &TSrc, recs: &[Rec], exp: &[Ev], not_before: &[u
   Ok(())
 }
 
+/// virtual times at which the (late) executor runs: every `run` step and the final run
+fn run_times(case: &Case, step_times: &[u64]) -> Vec<u64> {
+  let mut out = vec![];
+  for (k, s) in case.script.iter().enumerate() {
+    if matches!(s, Step::Run) {
+      out.push(step_times[k]);
+    }
+  }
+  out.push(*step_times.last().unwrap_or(&0));
+  out
+}
+
 fn name(s: &TSrc) -> &'static str {
   match s {
     TSrc::Interval(_) => "interval",
@@ -288,9 +311,9 @@ fn run_case(c: &mut dyn Choices, ctx: &Ctx) -> Outcome {
   let case = gen_case(c);
   let res = guarded_strict(|| {
     if case.threads {
-      crate::threads::exec_sources(&case.srcs, &case.script, case.mode).into_iter().map(|t| (t.recs, (t.stats.polls, t.stats.polls_after_end), t.requested_at_subscribe)).collect::<Vec<_>>()
+      crate::threads::exec_sources(&case.srcs, &case.script, case.mode).into_iter().map(|t| (t.recs, (t.stats.polls, t.stats.polls_after_end), t.requested_at_subscribe, t.step_times)).collect::<Vec<_>>()
     } else {
-      crate::local::exec_sources(&case.srcs, &case.script, case.mode).into_iter().map(|t| (t.recs, (t.stats.polls, t.stats.polls_after_end), t.requested_at_subscribe)).collect::<Vec<_>>()
+      crate::local::exec_sources(&case.srcs, &case.script, case.mode).into_iter().map(|t| (t.recs, (t.stats.polls, t.stats.polls_after_end), t.requested_at_subscribe, t.step_times)).collect::<Vec<_>>()
     }
   });
   let total_advance: u64 = case.script.iter().map(|s| if let Step::Advance(n) = s { *n } else { 0 }).sum();
@@ -314,8 +337,8 @@ fn run_case(c: &mut dyn Choices, ctx: &Ctx) -> Outcome {
     Err(m) => Verdict::Violation { sig: format!("panic:{}", labels[0]), detail: m.clone() },
     Ok(trs) => {
       let mut v = Verdict::Ok;
-      for (i, (recs, stats, req)) in trs.iter().enumerate() {
-        let r = check_src(&case, i, &case.srcs[i], recs, *stats, req).and_then(|_| completeness(&case, i, &case.srcs[i], recs, total_advance));
+      for (i, (recs, stats, req, st)) in trs.iter().enumerate() {
+        let r = check_src(&case, i, &case.srcs[i], recs, *stats, req, st).and_then(|_| completeness(&case, i, &case.srcs[i], recs, total_advance));
         if let Err((sig, detail)) = r {
           v = Verdict::Violation { sig, detail };
           break;
@@ -328,7 +351,7 @@ fn run_case(c: &mut dyn Choices, ctx: &Ctx) -> Outcome {
     Some(json!({
       "sources": case.srcs.iter().map(|s| format!("{s:?}")).collect::<Vec<_>>(),
       "clock_script": script_short(&case.script), "executor": format!("{:?}", case.mode), "build": if case.threads {"threads"} else {"local"},
-      "delivered": res.as_ref().map(|t| json!(t.iter().map(|(r,_,_)| r.iter().map(|x| format!("{}@t={}", ev_short(&x.ev), x.vt)).collect::<Vec<_>>()).collect::<Vec<_>>())).unwrap_or_else(|m| json!({"panic": m})),
+      "delivered": res.as_ref().map(|t| json!(t.iter().map(|(r,_,_,_)| r.iter().map(|x| format!("{}@t={}", ev_short(&x.ev), x.vt)).collect::<Vec<_>>()).collect::<Vec<_>>())).unwrap_or_else(|m| json!({"panic": m})),
     }))
   } else {
     None
